@@ -67,9 +67,9 @@ fn bytes_panic_signature(bytes: &[u8]) -> &'static str {
 
 /// parse_bytes on an encoded rendering: must equal parse of the text.
 pub fn bytes_case(ctx: &mut Ctx, rng: &mut Rng) {
-    let kind = rng.below(8);
+    let kind = rng.below(9);
     let (label, latin): (Option<&str>, bool) = match kind {
-        0 => (None, false),
+        0 | 8 => (None, false),
         1 => (Some("UTF-8"), false),
         2 | 3 => (Some("UTF-16"), false),
         4 => (Some(*rng.pick(&["ISO-8859-1", "iso-8859-1", "latin1"])), true),
@@ -90,8 +90,42 @@ pub fn bytes_case(ctx: &mut Ctx, rng: &mut Rng) {
     if kind == 7 {
         text = text.chars().map(|c| if (c as u32) < 0x80 { c } else { 'e' }).collect();
     }
+    if kind == 8 {
+        // UTF-8 without declaration, with `encoding=` / `charset=` somewhere near the start that is
+        // NOT an XML declaration (comment, attribute name, character data): still UTF-8
+        let lab = *rng.pick(&["ISO-8859-1", "windows-1252", "latin1", "UTF-16", "utf-16le"]);
+        let q = *rng.pick(&["\"", "'"]);
+        text = match rng.below(3) {
+            0 => format!("<!-- encoding={}{}{} -->{}<!--é€-->", q, lab, q, text),
+            1 => format!("<!--charset={}{}{}-->{}<!--é€-->", q, lab, q, text),
+            _ => format!("<?target encoding={}{}{} é?>{}", q, lab, q, text),
+        };
+    }
+    // single-byte text whose bytes happen to be well-formed UTF-8 as a whole (every non-ASCII
+    // character replaced by a pair / triple such as "Ã©" = C3 A9, "Â©" = C2 A9, "â‚¬" = E2 82 AC):
+    // the declared encoding must still decide
+    let lookalike = (kind == 4 || kind == 5) && rng.chance(1, 3);
+    if lookalike {
+        let mut t = String::new();
+        for c in text.chars() {
+            if (c as u32) < 0x80 {
+                t.push(c);
+            } else {
+                t.push_str(*rng.pick(&["Ã©", "Â©", "Ã¤", "Â°"]));
+                if kind == 5 && rng.chance(1, 3) {
+                    t.push_str("â‚¬");
+                }
+            }
+        }
+        if !t.chars().any(|c| (c as u32) >= 0x80) {
+            // make sure there is at least one such sequence in character data
+            t = t.replacen("</", "Ã©</", 1);
+        }
+        text = t;
+        ctx.sink.stat("bytes.latin-utf8-lookalike");
+    }
     let bytes: Vec<u8> = match kind {
-        0 | 1 | 6 => {
+        0 | 1 | 6 | 8 => {
             if kind == 1 && rng.chance(1, 2) {
                 let mut b = vec![0xef, 0xbb, 0xbf];
                 b.extend_from_slice(text.as_bytes());
@@ -112,6 +146,7 @@ pub fn bytes_case(ctx: &mut Ctx, rng: &mut Rng) {
         4 => "iso-8859-1",
         5 => "windows-1252",
         6 => "unknown-label",
+        8 => "utf8-undeclared-with-encoding-bait",
         _ => "us-ascii",
     };
     ctx.sink.stat(&format!("bytes.{}", name));
@@ -140,6 +175,8 @@ pub fn bytes_case(ctx: &mut Ctx, rng: &mut Rng) {
                 if kind != 6 {
                     let sig = if eq_space {
                         "parse_bytes-ignores-declared-encoding-with-space-around-eq".to_string()
+                    } else if kind == 8 {
+                        "parse_bytes-takes-encoding-from-text-that-is-not-the-xml-declaration".to_string()
                     } else {
                         format!("parse_bytes-{}-differs-from-parse-of-the-text", name)
                     };
@@ -154,7 +191,7 @@ pub fn bytes_case(ctx: &mut Ctx, rng: &mut Rng) {
                     ctx.sink.emit(format!("build bytes {} {}", text.len(), dump.words), resp);
                 }
                 ctx.sink.stat("bytes.equal");
-                if kind != 5 && kind != 7 {
+                if kind != 5 && kind != 7 && kind != 8 && !lookalike {
                     let mut c02 = BTreeSet::new();
                     diff(&r.top, &a2, &mut c02);
                     for c in c02 {
